@@ -16,6 +16,10 @@ none, 0, 1, 4:
                                                          byte-for-byte the same recorded tree as the first doc,
    "dsame": true |  "dec": outcome of the library's decode(name, bytes) ({"st":"ok","v":abstract value} ...)}
 
+Every library call runs under guarded(): drive_codec.guarded() (alarm-based, classifies exceptions and
+hangs, names the innermost asn1tools frame) plus a budget of CPU seconds of this process, so that a hang
+(XER REAL encode of infinity) is an outcome and machine load is not.
+
 No encoding rule lives here: the trees are what the independent readers return, number tokens are
 converted with int() / float() and written as BigInt limbs / IEEE-754 [c, s, m, e] records
 (values.real_from_py), text as code points.  Run with /venv/bin/python.
@@ -32,10 +36,33 @@ import drive_codec as dc  # noqa: E402  (puts $VERIF_REPO on sys.path)
 import render  # noqa: E402
 import values  # noqa: E402
 
-CALL_TIMEOUT = int(os.environ.get('VERIF_TEXT_TIMEOUT', '1'))       # per encode / decode call (seconds)
-COMPILE_TIMEOUT = int(os.environ.get('VERIF_COMPILE_TIMEOUT', '120'))
-dc.CALL_TIMEOUT = CALL_TIMEOUT
-guarded = dc.guarded
+import signal  # noqa: E402
+
+# A call is cut after CALL_CPU seconds of *CPU time of this process* (ITIMER_VIRTUAL): a hang in the
+# library is a busy loop (xer.Real.encode on infinity), and CPU time does not run while the machine is
+# overloaded, so a slow machine cannot turn into a recorded "timeout".  The wall-clock alarm of
+# drive_codec.guarded() stays armed as a backstop for a call that blocks without using the CPU.
+CALL_CPU = float(os.environ.get('VERIF_TEXT_CPU', '1.0'))
+CALL_WALL = int(os.environ.get('VERIF_TEXT_WALL', '120'))
+COMPILE_CPU = float(os.environ.get('VERIF_COMPILE_CPU', '300'))
+COMPILE_WALL = int(os.environ.get('VERIF_COMPILE_WALL', '3600'))
+
+
+def guarded(fn, cpu=None, wall=None):
+    """drive_codec.guarded() (alarm-based, classifies the outcome) under an additional CPU-time budget."""
+    dc.CALL_TIMEOUT = wall or CALL_WALL
+    signal.signal(signal.SIGVTALRM, dc._alarm)
+    for attempt in (1, 2):
+        signal.setitimer(signal.ITIMER_VIRTUAL, cpu or CALL_CPU)
+        try:
+            try:
+                return dc.guarded(fn)
+            finally:
+                signal.setitimer(signal.ITIMER_VIRTUAL, 0)
+        except dc.CallTimeout:
+            # the budget expired between the return of the call and the disarming of the timer: run again
+            if attempt == 2:
+                return {'st': 'timeout', 'site': ''}
 
 INDENTS = [('none', None), ('0', 0), ('1', 1), ('4', 4)]
 NOFL = {'c': 'NA', 's': 0, 'm': [], 'e': 0}
@@ -209,11 +236,7 @@ def run_batch(batch, codecs, numerics, out):
     compile_err = {}
     for codec in codecs:
         for ne in numerics:
-            dc.CALL_TIMEOUT = COMPILE_TIMEOUT
-            try:
-                o = guarded(lambda: asn1tools.compile_string(text, codec, numeric_enums=ne))
-            finally:
-                dc.CALL_TIMEOUT = CALL_TIMEOUT
+            o = guarded(lambda: asn1tools.compile_string(text, codec, numeric_enums=ne), COMPILE_CPU, COMPILE_WALL)
             if o['st'] == 'ok':
                 specs[(codec, ne)] = o['r']
             else:
